@@ -495,7 +495,7 @@ fn c26_case(c: &NameCase) -> CaseResult {
             if !k.starts_with(&own_prefix) && *k != format!("{data_rel}/{u1}/") {
                 let whose = if k.starts_with(&format!("{data_rel}/{u2}/")) { "another user's directory" } else if k.starts_with(&format!("{data_rel}/")) { "the data directory outside the owner's directory" } else { "a path outside the data directory" };
                 return Err(Fail::new(
-                    format!("database file outside the owner's directory: {whose} ({class})"),
+                    confinement_sig(class, &format!("database file outside the owner's directory: {whose}")),
                     format!("{k} changed by request\n{}\nname {decoded:?} other {odecoded:?}", trace.join("\n")),
                 ));
             }
@@ -505,15 +505,16 @@ fn c26_case(c: &NameCase) -> CaseResult {
             if protected.contains(k) && !acts_on_x && !(matches!(op, NameOp::Copy) && false) {
                 // copying x only reads it; any change of x's files by an operation on another name collides
                 return Err(Fail::new(
-                    format!("two databases share a file ({class})"),
+                    confinement_sig(class, "two databases share a file"),
                     format!("{k} belongs to database 'x' and was changed by\n{}\nname {decoded:?} other {odecoded:?}", trace.join("\n")),
                 ));
             }
         }
         if !r.ok() && changed.iter().any(|k| !is_server_file(k, &data_rel) && *k != format!("{data_rel}/")) {
+            let name_for_sig = if matches!(op, NameOp::Copy | NameOp::Rename) { &odecoded } else { &decoded };
             return Err(Fail::new(
-                "rejected request changed the file system",
-                format!("{changed:?}\n{}", trace.join("\n")),
+                confinement_sig(name_class(name_for_sig), "rejected request changed the file system"),
+                format!("{changed:?}\n{}\nname {decoded:?} other {odecoded:?}", trace.join("\n")),
             ));
         }
     }
@@ -524,6 +525,17 @@ fn c26_case(c: &NameCase) -> CaseResult {
     }
     drop(s);
     Ok(ci)
+}
+
+/// One root cause behind every C26 symptom for a non-plain name: database names are joined to
+/// the owner's directory without validation. The signature names the class of the name (the
+/// trigger); for a plain name the symptom itself is the signature.
+fn confinement_sig(class: &str, symptom: &str) -> String {
+    if class == "plain" {
+        symptom.to_string()
+    } else {
+        format!("unvalidated database name ({class}): files outside the owner's directory, shared between databases, or left behind by a rejected request")
+    }
 }
 
 fn name_class(decoded: &str) -> &'static str {
@@ -542,8 +554,17 @@ fn name_class(decoded: &str) -> &'static str {
     }
 }
 
-fn name_case() -> impl Strategy<Value = NameCase> {
-    let piece = || (0u8..24, any::<bool>());
+fn name_case_with(plain_only: bool) -> impl Strategy<Value = NameCase> {
+    // pass B: only pieces whose combinations stay in the class "plain" (the triggers of the
+    // listed findings are excluded by construction)
+    let plain: Vec<u8> = pieces().iter().enumerate().filter(|(_, p)| name_class(p) == "plain" && !p.contains('%') && !p.contains('.')).map(|(i, _)| i as u8).collect();
+    let piece = move || {
+        if plain_only {
+            (proptest::sample::select(plain.clone()), any::<bool>()).boxed()
+        } else {
+            (0u8..24, any::<bool>()).boxed()
+        }
+    };
     let op = prop_oneof![
         5 => (0u8..3).prop_map(NameOp::Add),
         2 => Just(NameOp::Copy),
@@ -562,11 +583,17 @@ fn name_case() -> impl Strategy<Value = NameCase> {
     })
 }
 
+fn name_case() -> impl Strategy<Value = NameCase> {
+    name_case_with(false)
+}
+
 pub fn c26(ctx: &mut Ctx) {
-    ctx.rule = "database names built from 1-3 pieces of a grammar of path-like and special strings (separators / and \\, their percent-encoded and double-encoded forms, '.' and '..' segments, leading dots incl. the recovery-log name '.x' of an existing database 'x', the reserved directory names audit and backups and paths inside them, .bak / .log suffixes, blanks, control and non-ASCII characters), each piece sent raw or percent-encoded, used with add, copy (as new_db), rename (as new_db), backup, restore, clear, convert, exec_mut, delete and remove by one user while another user and the same user own a plain database 'x' with a backup. One fresh server per case, nested five levels below the scratch root. Oracle: a manifest (path, size, content hash) of the whole scratch root is taken before and after every request; every created, modified or deleted path (except the server's own bookkeeping files) must lie under data_dir/<owner>/; no file of database 'x' (main, recovery log, backup, audit) may be changed by a request on another name; a rejected request changes nothing. evaluations = requests. Non-trivial: the name contains a separator, dot segment, leading dot, reserved name or suffix and the server answered 2xx or changed the file system. Distinct = hash of the case.".into();
-    let cases = ctx.tier.pick(48, 1500);
+    ctx.rule = "database names built from 1-3 pieces of a grammar of path-like and special strings (separators / and \\, their percent-encoded and double-encoded forms, '.' and '..' segments, leading dots incl. the recovery-log name '.x' of an existing database 'x', the reserved directory names audit and backups and paths inside them, .bak / .log suffixes, blanks, control and non-ASCII characters), each piece sent raw or percent-encoded, used with add, copy (as new_db), rename (as new_db), backup, restore, clear, convert, exec_mut, delete and remove by one user while another user and the same user own a plain database 'x' with a backup. One fresh server per case, nested five levels below the scratch root. Oracle: a manifest (path, size, content hash) of the whole scratch root is taken before and after every request; every created, modified or deleted path (except the server's own bookkeeping files) must lie under data_dir/<owner>/; no file of database 'x' (main, recovery log, backup, audit) may be changed by a request on another name; a rejected request changes nothing. evaluations = requests. Non-trivial: the name contains a separator, dot segment, leading dot, reserved name or suffix and the server answered 2xx or changed the file system. Pass B repeats the campaign with names restricted to plain pieces (no separator, dot, reserved name or suffix), where every failure is a violation. Distinct = hash of the case.".into();
+    let cases = ctx.tier.pick(120, 2500);
     replay_saved::<NameCase, _>(ctx, "c26-names", c26_case);
     run_campaign(ctx, CampaignCfg { name: "c26-names", cases, max_shrink_iters: 40, max_restarts: 2 }, name_case, c26_case);
+    // pass B: plain names only - whatever fails here has another cause than the listed findings
+    run_campaign(ctx, CampaignCfg { name: "c26-names-passB", cases: cases / 2, max_shrink_iters: 40, max_restarts: 1 }, || name_case_with(true), c26_case);
 }
 
 pub fn c26_replay(path: &str) -> i32 {
@@ -728,7 +755,9 @@ fn c24_case(c: &PermCase) -> CaseResult {
             },
             Token::Garbage => (Some(garbage.as_str()), false),
             Token::Missing => (None, false),
-            Token::Quoted => (Some(quoted.as_str()), false),
+            // the server strips surrounding double quotes from bearer tokens on purpose
+            // (utilities::unquote): a quoted valid token is the valid token
+            Token::Quoted => (Some(quoted.as_str()), actor.logged_in),
         };
         let role = roles[a];
         let is_owner = a == 0;
@@ -846,7 +875,7 @@ fn c24_case(c: &PermCase) -> CaseResult {
                         Token::LoggedOut => "logged-out token accepted",
                         Token::Garbage => "garbage token accepted",
                         Token::Missing => "request without token accepted",
-                        Token::Quoted => "malformed (quoted) token accepted",
+                        Token::Quoted => "quoted token of a logged-out session accepted",
                         Token::Valid => "token of a logged-out session accepted",
                     }
                 } else {
@@ -983,8 +1012,8 @@ fn perm_case() -> impl Strategy<Value = PermCase> {
 }
 
 pub fn c24(ctx: &mut Ctx) {
-    ctx.rule = "multi-user request sequences (5-40 requests) against a real server process: four users (owner + three others) on one database (memory / mapped / file); grants and removals of read/write/admin roles, exec and exec_mut with read-only and mutating batches, a mutating batch sent to exec, audit, backup, restore, clear, optimize, convert, copy, rename, delete, remove, user list, adding a database under another user's name, logout (current / all sessions), login, change password, and admin endpoints called with user tokens; each request is issued by a generated actor presenting a valid, logged-out, garbage, missing or quoted token. Oracle: a permission model written from the documented table predicts allowed / rejected; rejected => 4xx and the observable server state (users, databases, roles per database, node count and element ids per database, read through admin endpoints) is unchanged; allowed => 2xx and the roles reported by the server equal the model. A user removing their own role is not in the documented table and is not decided. evaluations = requests. Non-trivial: >=1 rejected request by an authenticated user lacking the role AND >=1 request by an actor after its role was removed or it logged out. Distinct = hash of the case.".into();
-    let cases = ctx.tier.pick(60, 1200);
+    ctx.rule = "multi-user request sequences (5-40 requests) against a real server process: four users (owner + three others) on one database (memory / mapped / file); grants and removals of read/write/admin roles, exec and exec_mut with read-only and mutating batches, a mutating batch sent to exec, audit, backup, restore, clear, optimize, convert, copy, rename, delete, remove, user list, adding a database under another user's name, logout (current / all sessions), login, change password, and admin endpoints called with user tokens; each request is issued by a generated actor presenting a valid, logged-out, garbage, missing or quoted token (the server strips surrounding quotes on purpose, so a quoted valid token counts as valid). Oracle: a permission model written from the documented table predicts allowed / rejected; rejected => 4xx and the observable server state (users, databases, roles per database, node count and element ids per database, read through admin endpoints) is unchanged; allowed => 2xx and the roles reported by the server equal the model. A user removing their own role is not in the documented table and is not decided. evaluations = requests. Non-trivial: >=1 rejected request by an authenticated user lacking the role AND >=1 request by an actor after its role was removed or it logged out. Distinct = hash of the case.".into();
+    let cases = ctx.tier.pick(160, 2500);
     replay_saved::<PermCase, _>(ctx, "c24-requests", c24_case);
     run_campaign(ctx, CampaignCfg { name: "c24-requests", cases, max_shrink_iters: 200, max_restarts: 2 }, perm_case, c24_case);
     if ctx.tier == Tier::Thorough {
